@@ -1,0 +1,24 @@
+//go:build verif
+
+package accounting
+
+import (
+	"math/big"
+
+	"github.com/gauss-project/aurorafs/pkg/boson"
+)
+
+// VerifUnpaid returns a copy of the peer's unpaid balance, taken under the
+// per-peer lock, or nil when the peer has no accounting record yet. It never
+// creates a record and never calls the settlement layer. Verification hook.
+func (a *Accounting) VerifUnpaid(peer boson.Address) *big.Int {
+	a.accountingPeersMu.Lock()
+	p, ok := a.accountingPeers[peer.String()]
+	a.accountingPeersMu.Unlock()
+	if !ok {
+		return nil
+	}
+	p.lock.Lock()
+	defer p.lock.Unlock()
+	return new(big.Int).Set(p.unPaidTraffic)
+}
